@@ -263,6 +263,13 @@ fn generate_deserialize_with_derive(
             .attrs
             .push(parse_quote!(#[serde(rename = #qualified_name)]));
 
+        // A variant without fields takes `parameters` that are absent, `null` or an empty object.
+        if matches!(variant.fields, Fields::Unit) {
+            variant
+                .attrs
+                .push(parse_quote!(#[serde(deserialize_with = "__zlink_no_parameters")]));
+        }
+
         // Add serde rename attributes to fields based on their serialized names.
         if let (Fields::Named(fields), Some(field_info)) = (&mut variant.fields, field_info) {
             for (field, name_str) in fields.named.iter_mut().zip(&field_info.name_strings) {
@@ -331,6 +338,15 @@ fn generate_deserialize_with_derive(
             where
                 D: serde::Deserializer<'de>,
             {
+                #[allow(dead_code)]
+                fn __zlink_no_parameters<'de, D>(deserializer: D) -> core::result::Result<(), D::Error>
+                where
+                    D: serde::Deserializer<'de>,
+                {
+                    <Option<serde::de::IgnoredAny> as serde::Deserialize>::deserialize(deserializer)
+                        .map(|_| ())
+                }
+
                 #[derive(serde::Deserialize)]
                 #[serde(tag = "error", content = "parameters")]
                 enum __ZlinkDeserHelper #orig_impl_generics #orig_where_clause {
